@@ -484,6 +484,24 @@ func init() {
 		p.storeObj(pv.Obj, p.fillVal(et, p.loadObj(pv.Obj), 0))
 		return nil
 	}
+	// vf.GuardMap(m any, name string): from now on every access to map m (lookup, update, delete,
+	// len, range, maps.Clone) is recorded as event "map:<name>" for vf.HeldDuring.
+	intrinsics[vfPkg+".GuardMap"] = func(p *Path, fn *ssa.Function, args []Value) Value {
+		iv, ok := args[0].(*IfaceV)
+		if !ok || iv.Typ == nil {
+			p.unsupported("vf.GuardMap needs a map")
+		}
+		mv, ok := iv.Val.(*MapV)
+		if !ok || mv.M == nil {
+			p.unsupported("vf.GuardMap needs a non-nil map")
+		}
+		name, _ := p.concreteString(args[1].(*SliceV))
+		if p.guardedMaps == nil {
+			p.guardedMaps = map[*MapObj]string{}
+		}
+		p.guardedMaps[mv.M] = name
+		return nil
+	}
 	intrinsics[vfPkg+".DeepEqual"] = func(p *Path, fn *ssa.Function, args []Value) Value {
 		pa, ta := ifacePtr(p, args[0], "vf.DeepEqual")
 		pb, tb := ifacePtr(p, args[1], "vf.DeepEqual")
